@@ -222,7 +222,7 @@ theorem inv_init : Inv PState.init := by unfold Inv; decide
     csiIntermediate (F08) is dead code: `anywhere` has already returned nil. -/
 theorem invariant_step (s : PState) (h : Inv s) (i : Inp) :
     (isEof i = false → Inv (pstep s i).st) ∧ Seq.panic ∉ (pstep s i).out ∧ (pstep s i).stop = isEof i :=
-  inv_step_of_ok handTable (by decide +kernel) (by decide +kernel) s h i
+  hand_inv_step s h i
 
 /-- … hence along every run from the initial state. -/
 theorem run_invariant (s : PState) (h : Inv s) (w : List Nat) :
